@@ -5,27 +5,34 @@ Correspondence: the real evolvable modules (EvolvableMLP, EvolvableCNN 2d/3d, Ev
 EvolvableSimBa, EvolvableResNet, EvolvableMultiInput) and networks (QNetwork, RainbowQNetwork,
 ContinuousQNetwork, ValueNetwork, DeterministicActor, StochasticActor; vector / image / sequence /
 dict / tuple observations; MLP, CNN, LSTM, SimBa, ResNet and multi-input encoders) against
-`Model/Arch.lean`.  The model is *defined from the live object* (its attributes at the start of a
-case) and then evolves on its own; after every step we compare `last_mutation_attr`, the
-constructor description, `{name: shape}` of `state_dict()` and the advertised method names.
+`Model/Arch.lean`.  The model object is *defined from the live object* (its attributes at the start
+of a case) and then evolves on its own; after every step we compare `last_mutation_attr`, the
+constructor description (the fields of `init_dict` that describe the architecture and its bounds),
+`{name: shape}` of `state_dict()` and the advertised method names.
 
 Methods are invoked the way `Mutations.architecture_mutate` does it: on a fresh `clone()`, through
-`getattr(net, name)(**kwargs)`, with the name taken from `sample_mutation_method` in the walks; a
-twin network receives the applied method with the returned kwargs (what critics get).  The numpy
-draws made inside a method (`np.random.randint` / `np.random.choice`) are served and recorded by a
-seeded stand-in, and handed to the model, which checks that they lie in the range it expects.
+`getattr(net, name)(**kwargs)`, the name taken from the offspring (`sample_mutation_method` in the
+walks); a twin network receives the applied method with the returned kwargs (what the critics get).
+Chains without a clone between steps are walked too (the property speaks of any chain of clone and
+mutate steps).  The numpy draws made inside a method (`np.random.randint` / `np.random.choice`) are
+served and recorded by a seeded stand-in and handed to the model, which answers `reject` if a draw
+lies outside the range it expects.
 
 Oracle (independent of Lean) after every step: forward pass finite and of the declared shape for
 batch sizes 1..3; `type(m)(**m.init_dict)` rebuilds and loads `m.state_dict()` strictly; `clone()`
-works and carries the same tensors; declared bounds hold; the method named by
-`last_mutation_attr` is the called one or its documented fallback and the architecture changed
-accordingly (unchanged only when the bound would be reached or crossed).
+works and carries the same tensors; declared bounds hold for every component that started inside
+them; the method named by `last_mutation_attr` is the called one or its documented fallback and the
+architecture changed accordingly (unchanged only when the bound would be reached or crossed).
+
+Probes (`probe_policy`) check the call sites of the defects analysed in the design / build round
+one by one and report them through `chk.finding`; the suites do not report those again.
 """
 from __future__ import annotations
 
 import copy
 import json
 import random
+import re
 import warnings
 
 import numpy as np
@@ -389,7 +396,9 @@ def shapes(m) -> str:
 
 def define_lines(spec: dict, m, policy: dict) -> list[str]:
     """driver lines that make the model's current object equal to the live object `m`"""
-    lines = [f"arch policy {b01(policy['forward_head'])} {b01(policy['clamp_kernel'])}"]
+    # the forwarding switch concerns heads inside an EvolvableWrapper only (StochasticActor)
+    fwd = policy["forward_head"] or not (spec["kind"] == "net" and hasattr(m.head_net, "wrapped"))
+    lines = [f"arch policy {b01(fwd)} {b01(policy['clamp_kernel'])}"]
 
     def define_enc(mod, reg):
         if block_kind(mod) == "multi":
@@ -718,6 +727,8 @@ def run_chain(chk: Check, spec: dict, steps: list[dict], policy: dict, oracle: b
             except Exception as e:
                 problems.append(f"step {j}: clone() raised {type(e).__name__}: {str(e)[:160]}")
                 break
+        if st["method"] not in m.mutation_methods:
+            break               # not an advertised method here (can happen while shrinking): chain ends
         r = do_step(spec, m, st, start_ok, oracle)
         tags += r.tags
         applied.append(r.applied)
@@ -774,12 +785,17 @@ def classify(spec, steps, what: str):
     """map an oracle failure to a separately probed finding, so that it is reported once"""
     if "Channel size must be an integer" in what:
         return FIND_RESNET
-    if "Kernel size must be a tuple" in what or "Kernel size must be an integer" in what:
+    if "Kernel size must be a tuple" in what or "Kernel size must be an integer" in what or "failed to unpack" in what:
         return FIND_KERNEL3D
+    if "change_kernel" in what and "list assignment index out of range" in what:
+        return FIND_KERNEL
     if spec.get("cls") == "StochasticActor" and "last_mutation_attr=None" in what and "head_net" in what:
         return FIND_HEAD
     if "change_kernel" in what and "last_mutation_attr=None" in what and spec.get("kind") == "net":
         return FIND_CK_DEAD
+    m = re.match(r"step \d+ (encoder\.[\w.]+):", what)
+    if m and m.group(1).rsplit(".", 1)[1] in ("add_layer", "remove_layer", "add_block", "remove_block"):
+        return FIND_LAYER
     latent = [j for j, st in enumerate(steps) if st["method"].endswith("latent_node")]
     if latent and any(not st.get("clone", True) for st in steps[latent[0] + 1:]):
         return FIND_STALE
@@ -854,7 +870,10 @@ def explore(chk: Check, suite: str, spec: dict, policy: dict, depth_full: int, d
         truncated = False
         for pid in frontier:
             parent = nodes[pid]
-            acts = actions_for(spec, parent["m"], small)
+            try:
+                acts = actions_for(spec, parent["m"].clone(), small)   # names are taken from the offspring
+            except Exception:
+                acts = actions_for(spec, parent["m"], small)
             for act in acts:
                 if nid >= max_nodes:
                     truncated = True
@@ -942,14 +961,15 @@ def walk(chk: Check, suite: str, spec: dict, policy: dict, length: int, known: s
     for j in range(length):
         if not m.mutation_methods:
             break
-        name = str(m.sample_mutation_method(0.3, gen))
-        st = {"method": name, "seed": chk.rng.randrange(1 << 30), "clone": chk.rng.random() < clone_prob}
+        st = {"method": None, "seed": chk.rng.randrange(1 << 30), "clone": chk.rng.random() < clone_prob}
         if st["clone"]:
             try:
                 m = m.clone()
             except Exception:
+                st["method"] = str(m.sample_mutation_method(0.3, gen))
                 steps.append(st)
                 break           # run_chain below reproduces and reports it
+        name = st["method"] = str(m.sample_mutation_method(0.3, gen))   # sampled from the offspring, as the pipeline does
         r = do_step(spec, m, st, start_ok, oracle=False)
         steps.append(st)
         if r.raised is not None:
